@@ -395,6 +395,20 @@ func runC18(c *Ctx) {
 			}
 		}
 	}
+	// every successful Write has queued one message (also an empty one: a zero-length datagram is a datagram)
+	if ok, bad := mustPassU(entryPos(dw), func(in ssa.Instruction) bool { return isSuccessReturnOf(in, 1) }, func(in ssa.Instruction) bool {
+		if sel, ok := in.(*ssa.Select); ok {
+			for _, st := range sel.States {
+				if st.Dir == types.SendOnly {
+					return true
+				}
+			}
+		}
+		_, isSend := in.(*ssa.Send)
+		return isSend
+	}); !ok {
+		o.Fail(bad.Pos(), "Write reports success on a path that has not queued the message: the datagram is silently lost (the peer's reads fall out of step with the writes)")
+	}
 	if rField == "" || wField == "" || closedField == "" {
 		o.Fail(dw.Pos(), "channel roles of a pipe end not found (Read receives messages from %q, Write sends to %q and refuses on %q)", rField, wField, closedField)
 	} else if rField == wField {
